@@ -62,6 +62,7 @@ type summary struct {
 
 var sites []string
 var sum summary
+var coarsePkgs = map[string]bool{}
 
 func fatal(f string, a ...interface{}) {
 	fmt.Fprintf(os.Stderr, "instr: "+f+"\n", a...)
@@ -71,6 +72,7 @@ func fatal(f string, a ...interface{}) {
 func main() {
 	root := flag.String("root", "", "scratch golib directory")
 	pkgs := flag.String("pkgs", "", "comma separated package dirs relative to root")
+	coarse := flag.String("coarse", "", "comma separated package dirs instrumented coarsely: no yields inside loop bodies (byte-crunching helpers)")
 	flag.Parse()
 	if *root == "" || *pkgs == "" {
 		fatal("usage")
@@ -78,6 +80,12 @@ func main() {
 	var patterns []string
 	for _, p := range strings.Split(*pkgs, ",") {
 		patterns = append(patterns, modPath+"/"+strings.TrimSpace(p))
+	}
+	for _, p := range strings.Split(*coarse, ",") {
+		if p = strings.TrimSpace(p); p != "" {
+			patterns = append(patterns, modPath+"/"+p)
+			coarsePkgs[modPath+"/"+p] = true
+		}
 	}
 	cfg := &packages.Config{
 		Mode: packages.NeedName | packages.NeedFiles | packages.NeedSyntax | packages.NeedTypes |
@@ -263,7 +271,12 @@ func instrumentFile(p *packages.Package, f *ast.File, src []byte, rel, root stri
 	}
 	labelN := 0
 
+	skipYields := false
+	funcLitSaved := map[ast.Node]int{}
 	doList := func(list []ast.Stmt) {
+		if skipYields {
+			return
+		}
 		for _, st := range list {
 			switch st.(type) {
 			case *ast.CaseClause, *ast.CommClause:
@@ -273,7 +286,30 @@ func instrumentFile(p *packages.Package, f *ast.File, src []byte, rel, root stri
 		}
 	}
 
+	isCoarse := coarsePkgs[p.PkgPath]
+	var stack []ast.Node
+	loopDepth := 0
 	ast.Inspect(f, func(n ast.Node) bool {
+		if n == nil {
+			top := stack[len(stack)-1]
+			stack = stack[:len(stack)-1]
+			switch top.(type) {
+			case *ast.ForStmt, *ast.RangeStmt:
+				loopDepth--
+			case *ast.FuncLit:
+				loopDepth = funcLitSaved[top]
+			}
+			return true
+		}
+		stack = append(stack, n)
+		switch n.(type) {
+		case *ast.ForStmt, *ast.RangeStmt:
+			loopDepth++
+		case *ast.FuncLit:
+			funcLitSaved[n] = loopDepth
+			loopDepth = 0
+		}
+		skipYields = isCoarse && loopDepth > 0
 		switch x := n.(type) {
 		case *ast.BlockStmt:
 			doList(x.List)
